@@ -482,11 +482,36 @@ class Gen:
         if steps is None and r.random() < self.p.get("p_big", 0.0):
             # scale in the other dimensions: more than nine bundles, hundreds of records
             saved = self.p["max_bundles"]
-            if saved:
+            if saved and r.random() < 0.5:
                 self.p = dict(self.p, max_bundles=12)
                 while len(self.targets) - 1 < 11:
                     ops.append(self.op_bundle())
-            n = r.choice([120, 150, 320])
+                n = r.choice([120, 150])
+            else:
+                # one container with several hundred distinct records, each with a distinct value, and a few pairs of values that are
+                # equal for Python but not the same (0.0 / -0.0, 1 / True): caches and interning give out beyond their sizes
+                decl = self.view("D")
+                pfx = sorted(decl)[0] if decl else None
+                if pfx is None:
+                    pfx, u = "ex", "http://ex.org/"
+                    ops.append(["ns", "D", pfx, u])
+                    self._note_ns("D", pfx, u)
+                nsu = self.view("D")[pfx]
+                many = r.choice([270, 330])
+                for i in range(many):
+                    v = {"k": "int", "v": 1000 + i}
+                    # pairs that are far apart inside one pass over the records and close across the end of one pass and the start of
+                    # the next (a bounded cache forgets between the two, a second export does not)
+                    if i in (20, many - 20):
+                        v = {"k": "float", "v": -0.0 if i == 20 else 0.0}
+                    elif i in (24, many - 24):
+                        v = {"k": "bool", "v": True} if i == 24 else {"k": "int", "v": 1}
+
+                    label = "R%d" % self.nrec
+                    self.nrec += 1
+                    ops.append(["rec", "D", "Entity", {"form": "qn", "prefix": pfx, "ns": nsu, "local": "many%d" % i}, {},
+                                [[{"form": "qn", "prefix": pfx, "ns": nsu, "local": "i"}, v]], "new_record", label])
+                    self.rec_labels.append((label, "Entity", "D"))
         for _ in range(n):
             ops.extend(self.step())
         while self.pending_attach:
